@@ -41,7 +41,8 @@ CLAIMS = {
               "error edge and sub-merge errors propagate, and a predicate-abstraction walk of the xpub key-source branch over the "
               "seven classes of key-source pairs yields the documented keep/insert/conflict table without a panic; a first-present-wins "
               "assignment to self.X may only be guarded by a test on X itself, and a call that can empty a field of self (take, replace, "
-              "clear, ...) must be followed by an assignment to that field on every path. Conflicting "
+              "clear, ...) must be followed by an assignment to that field on every path; every crate-local type inside a key of the merged "
+              "BTreeMaps has derived comparison traits or a hand-written comparison that reads every field. Conflicting "
               "values under one map key are outside the property's quantifier."),
         technique="resolved write-effect coverage with data dependence + dominance of the id gate + predicate-abstraction decision table",
         design_ref="§4 C14"),
@@ -49,7 +50,7 @@ CLAIMS = {
         category="other",
         text=("Decides the structural clauses of C08: an exhaustive abstract interpretation of locktime() over the discriminant "
               "lattice {Unconstrained, Minimum, Disallowed}^2 (all reachable cells, each outcome compared with the BIP370 table, "
-              "height preferred; this also proves the unreachable!() arms dead); the kill set of unique_id (every non-witness TxIn "
+              "height preferred; this also proves the unreachable!() arms dead; Height/Time ordered numerically); the kill set of unique_id (every non-witness TxIn "
               "field extract_tx fills from a signer/updater-mutable PSET field is reset before txid()); the per-field identity of "
               "from_txin/from_txout composed with extract_tx and the agreement of to_txout with extract_tx, including which source wins "
               "(commitment over explicit field) on all 16 presence patterns in both views and in the issuance view of an input; small PSET accessors and the 64-row tables of is_partially/fully_blinded; the truth table of TxOut::is_partially_blinded that "
@@ -222,7 +223,7 @@ CLAIMS = {
               "lengths) are distinct and non-zero for blech32 and blech32m, so no one- or two-character corruption of the data part maps a "
               "codeword to a codeword; no weight<=2 pattern bridges the two residues (version-character changes); the constants equal the "
               "Elements reference and are internally consistent; and the decoder reaches Ok only through the residue comparison over the HRP "
-              "and every data character, on the caller's string unmodified (no case folding in front of the decoders); the mixed-case test covers every letter of the string, HRP included, so re-casing HRP letters is "
+              "and every data character (converted with bech32::Fe32::from_char only), on the caller's string unmodified (no case folding in front of the decoders); the mixed-case test covers every letter of the string, HRP included, so re-casing HRP letters is "
               "rejected. The rest of the human-readable-part clause (replacing HRP characters by other characters) is NOT claimed: "
               "rejection there is probabilistic."),
         technique="algebraic distance computation on compiler-evaluated constants + must-pass-through of the residue check",
@@ -236,7 +237,8 @@ CLAIMS = {
               "Address::from_script takes the payload from the byte range the guarding predicate establishes and dispatches in the "
               "specified order; builders emit the opcodes the predicates test at the same positions; the push-size thresholds of "
               "push_slice, the minimal-push thresholds of Instructions::next and the PUSHDATA operand widths agree; small-integer, "
-              "OP_TRUE/OP_FALSE and verify-folding tables; for the clause that an address's text form parses back, C06's rules "
+              "OP_TRUE/OP_FALSE and verify-folding tables; identity byte views of Script/Builder; exhaustive 256-code table that an opcode "
+              "classified Ordinary (Legacy context) is in the ordinary-opcode table; for the clause that an address's text form parses back, C06's rules "
               "(payload layouts, program-length and padding tables of the blech32 reader, prefix matching) are evaluated here as well. Script-number arithmetic and byte-level builder/iterator round trips are not decided."),
         technique="exact truth tables of boolean predicates (all valuations of their atoms) + table agreement between sibling builder/parser",
         design_ref="§4 C16, Appendix D"),
